@@ -514,7 +514,6 @@ func (s *Solver) fallback(pc []*Term, extra *Term, vars []*Term, wantModel bool)
 	return first.r, first.m, first.who
 }
 
-
 var z3log = os.Getenv("GOSX_LOG_Z3")
 
 // logZ3 appends everything sent to z3 to the file named by GOSX_LOG_Z3 (debugging aid).
